@@ -14,7 +14,7 @@ def run_generator(module, workdir, constants=None, simulate=None, depth=None, se
         shutil.copy(f, d / f.name)
     cfg = (C.SPEC / f"{cfg or module}.cfg").read_text()
     for k, v in (constants or {}).items():
-        cfg, n = re.subn(rf"(\b{k}\s*(=|<-)\s*)\S+", rf"\g<1>{v}", cfg)
+        cfg, n = re.subn(rf"(?m)(\b{k}\s*(=|<-)\s*).*$", lambda m: m.group(1) + str(v), cfg)
         if n == 0:
             raise C.ToolError(f"constant {k} not in {module}.cfg")
     (d / f"{module}_run.cfg").write_text(cfg)
